@@ -31,6 +31,7 @@ def cfg_for_case(rng, k: int, traditional: bool = False) -> GenCfg:
         c.n_imports = (1, 2)
         c.p_import_chain = 0.5
         c.p_transitive_ref = 0.5
+        c.p_subdir = 0.4
         c.p_nested = 0.5
     elif r == 2:
         c.msg_bits = 2500
